@@ -217,6 +217,8 @@ M('r18-reordered-mappings', ['C18'], Y23 + 'f1040.py', "            TextPDFField
 
 # ------------------------------------------------------------------ C07
 FT = Y23 + 'f1040_figure_tax.py'
+M('c07-bisect-left-row-edge', ['C07'], FT, '    for row in TAX_TABLE:\n        if taxable_amount >= row[0] and taxable_amount < row[1]:\n            return float(row[filing_status_column])\n\n    # If we got here, something went wrong\n    assert False, f"Failed to find a matching entry for {taxable_amount} in the tax table"\n', '    import bisect\n    ends = [row[1] for row in TAX_TABLE]\n    index = bisect.bisect_left(ends, taxable_amount)\n    assert taxable_amount >= 0 and index < len(TAX_TABLE), "Failed to find a matching entry in the tax table"\n    return float(TAX_TABLE[index][filing_status_column])\n', 'D2', 'table row found by bisect_left over the row ends: an income equal to a row end gets the row below (seed C07-C)')
+M('c07-bisect-right-equivalent', ['C07'], FT, '    for row in TAX_TABLE:\n        if taxable_amount >= row[0] and taxable_amount < row[1]:\n            return float(row[filing_status_column])\n\n    # If we got here, something went wrong\n    assert False, f"Failed to find a matching entry for {taxable_amount} in the tax table"\n', '    import bisect\n    ends = [row[1] for row in TAX_TABLE]\n    index = bisect.bisect_right(ends, taxable_amount)\n    assert taxable_amount >= 0 and index < len(TAX_TABLE), "Failed to find a matching entry in the tax table"\n    return float(TAX_TABLE[index][filing_status_column])\n', None, 'table row found by bisect_right over the row ends: same function', 'silent')
 M('c07-one-cell', ['C07'], FT, "    (75, 100, 9, 9, 9, 9),", "    (75, 100, 9, 9, 9, 8),", 'D2', 'one tax table cell altered')
 M('c07-row-deleted', ['C07'], FT, "    (100, 125, 11, 11, 11, 11),\n", "", 'D1', 'one tax table row deleted')
 M('c07-row-widened', ['C07'], FT, "    (100, 125, 11, 11, 11, 11),", "    (100, 135, 11, 11, 11, 11),", 'D', 'one tax table row widened')
@@ -270,6 +272,12 @@ M('c02-nc-wrong-line', ['C02'], Y23 + 'fnc_d_400.py', "v['25'] - v['19'] if v['2
 M('c02-guard-flipped', ['C02'], Y23 + 'f1040.py', "FloatField('34', lambda s, i, v: (v['33'] - v['24']) if v['33'] > v['24'] else None),", "FloatField('34', lambda s, i, v: (v['33'] - v['24']) if v['33'] < v['24'] else None),", 'R2', 'overpayment computed when payments are LESS than tax')
 M('c02-reordered-summands', ['C02'], Y23 + 'f1040.py', "FloatField('14', lambda s, i, v: v['12'] + v['13']),", "FloatField('14', lambda s, i, v: float(v['13'] + v['12'])),", None, 'summands reordered and wrapped in float()', 'silent')
 M('c02-guarded-floor', ['C02'], Y23 + 'f1040.py', "FloatField('22', lambda s, i, v: max(0.0, v['18'] - v['21'])),", "FloatField('22', lambda s, i, v: v['18'] - v['21'] if v['18'] > v['21'] else 0.0),", None, 'floor written as a guarded subtraction', 'silent')
+
+# ------------------------------------------------------------------ K24e (waiter lists changed only by the tracker)
+M('k24e-prompt-context-truncated', ['C01', 'C06'], S, "        value, supplied = self._prompt(missing, needed_by)\n", "        del needed_by[8:]\n        value, supplied = self._prompt(missing, needed_by)\n", 'K24e', 'the list handed to the prompt is the tracker\'s own list and is truncated in place (seed C01-C)')
+M('k24e-prompt-sorts-in-place', ['C01', 'C06'], CLI, "    prompt = f'\\n----[ {missing.name()} ]----'\n", "    needed_by.sort(key=lambda f: f.name())\n    needed_by.pop()\n    prompt = f'\\n----[ {missing.name()} ]----'\n", 'K24e', 'the CLI prompt callback pops from the waiter list it was handed')
+M('k24e-outside-access', ['C01', 'C06'], S, "            self._refused_input = True\n", "            self._refused_input = True\n            self._input_dependencies._unmet.clear()\n", 'K24e', 'the solver clears the tracker table directly', accept_error=True)
+M('k24e-copy-then-truncate', ['C01', 'C06'], S, "        value, supplied = self._prompt(missing, needed_by)\n", "        needed_by = list(needed_by)\n        del needed_by[8:]\n        value, supplied = self._prompt(missing, needed_by)\n", None, 'a copy of the list is truncated for display', 'silent')
 
 # ------------------------------------------------------------------ C10 R10.10 (declared type)
 M('c10-int-product-for-float-line', ['C10'], Y21 + 'f1040_s8812.py', "FloatField('37', lambda s, i, v: v['32'] * 2000.0),", "FloatField('37', lambda s, i, v: v['32'] * 2000),", 'R10.10', 'int * int for a float line (F22 reverted)')
